@@ -52,6 +52,7 @@
 import GherkinVerif.Props.C16
 import GherkinVerif.Props.C18Pure
 import GherkinVerif.Lemmas.LayoutDoc3IndentSim
+import GherkinVerif.KDecide
 namespace GV
 open Lemmas Layout3
 
@@ -60,7 +61,7 @@ open Lemmas Layout3
 /-- the number of open builder nodes is a function of the parser state (start state 2, every
     state ≥ 1): the assignment found by a breadth-first walk passes the check -/
 def C16_depths : List (Nat × Nat) := Spec.computeDepths Gen.parserTable 5000 [(0, 2)] []
-theorem C16_fact_depths : Spec.depthsOk Gen.parserTable C16_depths = true := by decide +kernel
+theorem C16_fact_depths : Spec.depthsOk Gen.parserTable C16_depths = true := by kdecide
 
 theorem C16_tableOkI : TableOkI Gen.parserTable := ⟨C16_lookaheads_skip_empty, C16_empty_self_loop⟩
 
@@ -216,7 +217,7 @@ def C16_demoDoc' : Str :=
 /-- the hypotheses of `C16_blank_line_text` hold of it (`s1` = the first nine lines) … -/
 example : (MState.init Gen.dialects (lit "en")).map (fun μ => C16_blankLineOk false μ 0 C16_demoDoc 9) = some true ∧
     (MState.init Gen.dialects (lit "en")).map (fun μ => C16_blankLineOk true μ 0 C16_demoDoc 9) = some true := by
-  decide +kernel
+  kdecide
 
 /-- … and the conclusion is not trivial: the positions behind the insertion point have moved down -/
 example : (MState.init Gen.dialects (lit "en")).map (fun μ =>
@@ -225,7 +226,7 @@ example : (MState.init Gen.dialects (lit "en")).map (fun μ =>
     some ([⟨3, some 1⟩, ⟨4, some 3⟩, ⟨5, some 3⟩, ⟨8, some 3⟩, ⟨9, some 3⟩, ⟨10, some 3⟩, ⟨12, some 3⟩,
            ⟨13, some 1⟩, ⟨14, some 3⟩],
           [⟨3, some 1⟩, ⟨4, some 3⟩, ⟨5, some 3⟩, ⟨8, some 3⟩, ⟨9, some 3⟩, ⟨11, some 3⟩, ⟨13, some 3⟩,
-           ⟨14, some 1⟩, ⟨15, some 3⟩]) := by decide +kernel
+           ⟨14, some 1⟩, ⟨15, some 3⟩]) := by kdecide
 
 /-- a rejected document: a description, a tag with whitespace (read on as description), a ragged
     table, an unexpected line, a second feature -/
@@ -235,7 +236,7 @@ def C16_demoBad : Str :=
 /-- a blank line inserted after line 5 (`Given x`): the hypothesis holds in both error modes … -/
 example : (MState.init Gen.dialects (lit "en")).map (fun μ =>
       (C16_blankLineOk false μ 0 C16_demoBad 5, C16_blankLineOk true μ 0 C16_demoBad 5)) = some (true, true) := by
-  decide +kernel
+  kdecide
 
 /-- … and the errors (tag, unexpected line, ragged table, unexpected feature; the first one only in
     stop-at-first-error mode) behind it move down by one line -/
@@ -245,7 +246,7 @@ example : (MState.init Gen.dialects (lit "en")).map (fun μ =>
        C16_someLocs (parseWith Gen.dialects Gen.parserTable false μ 0 src').1,
        C16_someLocs (parseWith Gen.dialects Gen.parserTable true μ 0 src').1)) =
     some ([⟨3, some 5⟩, ⟨8, some 1⟩, ⟨7, some 3⟩, ⟨10, some 1⟩],
-          [⟨3, some 5⟩, ⟨9, some 1⟩, ⟨8, some 3⟩, ⟨11, some 1⟩], [⟨3, some 5⟩]) := by decide +kernel
+          [⟨3, some 5⟩, ⟨9, some 1⟩, ⟨8, some 3⟩, ⟨11, some 1⟩], [⟨3, some 5⟩]) := by kdecide
 
 /-- COUNTEREXAMPLE (the hypothesis is needed), description: between two description lines the
     state reads a blank line as `Other`; the check fails and the blank line becomes part of the
@@ -258,7 +259,7 @@ example : (MState.init Gen.dialects (lit "en")).map (fun μ =>
         | .ok d => d.feature.map Feature.description | _ => none),
        (match (parseWith Gen.dialects Gen.parserTable false μ 0 a').1 with
         | .ok d => d.feature.map Feature.description | _ => none))) =
-    some (false, some (lit " d1\n d2"), some (lit " d1\n\n d2")) := by decide +kernel
+    some (false, some (lit " d1\n d2"), some (lit " d1\n\n d2")) := by kdecide
 
 /-- COUNTEREXAMPLE, doc string: inside a doc string the blank line is content -/
 example : (MState.init Gen.dialects (lit "en")).map (fun μ =>
@@ -272,7 +273,7 @@ example : (MState.init Gen.dialects (lit "en")).map (fun μ =>
       (C16_blankLineOk false μ 0 a 5,
        content (parseWith Gen.dialects Gen.parserTable false μ 0 a).1,
        content (parseWith Gen.dialects Gen.parserTable false μ 0 a').1)) =
-    some (false, [lit "c1\nc2"], [lit "c1\n\nc2"]) := by decide +kernel
+    some (false, [lit "c1\nc2"], [lit "c1\n\nc2"]) := by kdecide
 
 /-- the states: after a feature line (3), after a step (12), in a data table (13), after an examples
     line (15), after a closing doc-string delimiter (40) a blank line is read as `Empty` first; in a
@@ -280,11 +281,11 @@ example : (MState.init Gen.dialects (lit "en")).map (fun μ =>
 example : Spec.emptyFirst Gen.parserTable 3 = true ∧ Spec.emptyFirst Gen.parserTable 12 = true ∧
     Spec.emptyFirst Gen.parserTable 13 = true ∧ Spec.emptyFirst Gen.parserTable 15 = true ∧
     Spec.emptyFirst Gen.parserTable 40 = true ∧ Spec.emptyFirst Gen.parserTable 4 = false ∧
-    Spec.emptyFirst Gen.parserTable 16 = false ∧ Spec.emptyFirst Gen.parserTable 39 = false := by decide +kernel
+    Spec.emptyFirst Gen.parserTable 16 = false ∧ Spec.emptyFirst Gen.parserTable 39 = false := by kdecide
 
 /-! ## G2: indenting lines -/
 
-theorem C16_fact_indent : indentFacts Gen.parserTable = true := by decide +kernel
+theorem C16_fact_indent : indentFacts Gen.parserTable = true := by kdecide
 
 /-- Generic form, for every dialect table and transition table passing the Boolean checks. -/
 theorem C16_indent_document_generic (D : List Dialect) (T : Table)
@@ -431,7 +432,7 @@ def C16_indDoc' : Str :=
 example : (MState.init Gen.dialects (lit "en")).map (fun μ =>
       (C16_indentOk false μ 0 C16_indDoc' C16_indDoc, C16_indentOk true μ 0 C16_indDoc' C16_indDoc,
        (List.range 13).map (C16_shift C16_indDoc' C16_indDoc))) =
-    some (true, true, [2, 1, 1, 3, 0, 0, 0, 1, 2, 2, 1, 0, 1]) := by decide +kernel
+    some (true, true, [2, 1, 1, 3, 0, 0, 0, 1, 2, 2, 1, 0, 1]) := by kdecide
 
 /-- … and the conclusion is not trivial: scenario, steps, rows, examples line; feature, tags, cells -/
 example : (MState.init Gen.dialects (lit "en")).map (fun μ =>
@@ -441,7 +442,7 @@ example : (MState.init Gen.dialects (lit "en")).map (fun μ =>
     some ([⟨3, some 1⟩, ⟨4, some 3⟩, ⟨5, some 3⟩, ⟨8, some 3⟩, ⟨9, some 3⟩, ⟨11, some 3⟩, ⟨13, some 3⟩],
           [⟨3, some 2⟩, ⟨4, some 6⟩, ⟨5, some 3⟩, ⟨8, some 4⟩, ⟨9, some 5⟩, ⟨11, some 4⟩, ⟨13, some 4⟩],
           [⟨1, some 1⟩, ⟨2, some 1⟩, ⟨2, some 5⟩, ⟨9, some 5⟩, ⟨9, some 9⟩],
-          [⟨1, some 3⟩, ⟨2, some 2⟩, ⟨2, some 6⟩, ⟨9, some 7⟩, ⟨9, some 11⟩]) := by decide +kernel
+          [⟨1, some 3⟩, ⟨2, some 2⟩, ⟨2, some 6⟩, ⟨9, some 7⟩, ⟨9, some 11⟩]) := by kdecide
 
 /-- `C16_demoBad` with the ragged table, the unexpected line and the second feature line moved right -/
 def C16_indBad' : Str :=
@@ -456,19 +457,19 @@ def C16_indBad'' : Str :=
     mode (there it is read on as description text) -/
 example : (MState.init Gen.dialects (lit "en")).map (fun μ =>
       (C16_indentOk false μ 0 C16_indBad' C16_demoBad, C16_indentOk true μ 0 C16_indBad'' C16_demoBad,
-       C16_indentOk false μ 0 C16_indBad'' C16_demoBad)) = some (true, true, false) := by decide +kernel
+       C16_indentOk false μ 0 C16_indBad'' C16_demoBad)) = some (true, true, false) := by kdecide
 
 /-- … the error columns move with the lines (tag, unexpected line, ragged table, unexpected feature) -/
 example : (MState.init Gen.dialects (lit "en")).map (fun μ =>
       (C16_someLocs (parseWith Gen.dialects Gen.parserTable false μ 0 C16_demoBad).1,
        C16_someLocs (parseWith Gen.dialects Gen.parserTable false μ 0 C16_indBad').1)) =
     some ([⟨3, some 5⟩, ⟨8, some 1⟩, ⟨7, some 3⟩, ⟨10, some 1⟩],
-          [⟨3, some 5⟩, ⟨8, some 4⟩, ⟨7, some 5⟩, ⟨10, some 2⟩]) := by decide +kernel
+          [⟨3, some 5⟩, ⟨8, some 4⟩, ⟨7, some 5⟩, ⟨10, some 2⟩]) := by kdecide
 
 example : (MState.init Gen.dialects (lit "en")).map (fun μ =>
       (C16_someLocs (parseWith Gen.dialects Gen.parserTable true μ 0 C16_demoBad).1,
        C16_someLocs (parseWith Gen.dialects Gen.parserTable true μ 0 C16_indBad'').1)) =
-    some ([⟨3, some 5⟩], [⟨3, some 7⟩]) := by decide +kernel
+    some ([⟨3, some 5⟩], [⟨3, some 7⟩]) := by kdecide
 
 /-- what is not a position: comment texts, the feature description, doc-string contents -/
 def C16_texts : Outcome → List (List Str)
@@ -489,7 +490,7 @@ def C16_cex4 : Str := lit "# c\nFeature: f\n desc\nScenario: s\nGiven x\n  \"\"\
 example : (MState.init Gen.dialects (lit "en")).map (fun μ =>
       (C16_indentOk false μ 0 C16_cex1 C16_cex, C16_indentOk false μ 0 C16_cex2 C16_cex,
        C16_indentOk false μ 0 C16_cex3 C16_cex, C16_indentOk false μ 0 C16_cex4 C16_cex)) =
-    some (false, false, false, false) := by decide +kernel
+    some (false, false, false, false) := by kdecide
 
 /-- … and the documents differ by more than columns: the comment text, the description, the
     doc-string content keep the blanks -/
@@ -501,7 +502,7 @@ example : (MState.init Gen.dialects (lit "en")).map (fun μ =>
     some [[[lit "# c"], [lit " desc"], [lit "c1"]],
           [[lit "  # c"], [lit " desc"], [lit "c1"]],
           [[lit "# c"], [lit "   desc"], [lit "c1"]],
-          [[lit "# c"], [lit " desc"], [lit "  c1"]]] := by decide +kernel
+          [[lit "# c"], [lit " desc"], [lit "  c1"]]] := by kdecide
 
 /-- the kinds: a moved line may have been built as a keyword, step, tag, table-row or blank line -/
 example : [Kind.FeatureLine, .RuleLine, .BackgroundLine, .ScenarioLine, .ExamplesLine, .StepLine, .TagLine,
